@@ -538,6 +538,8 @@ theorem knot (hE : EnvOK E) : ∀ n, Knot E n
       prep := by
         intro inst sp v kw r hi hv hk h
         rw [prepareAttrValue] at h
+        split at h
+        · cases h; rfl
         cases hm : mutateValue E n MISSING
             { new := v, prepare := sp.prep.map (fun p => E.prep p inst), ty := some sp.ty, attrs := kw } with
         | error e => rw [hm] at h; cases h
